@@ -112,7 +112,7 @@ pub fn gen_case(rng: &mut Rng, faults: bool) -> CliCase {
         });
     }
     let derive = if rng.pct(60) {
-        let d = rng.pick(&["Debug", "", "Serialize, Deserialize", "Debug, Clone", "Привет", "A B", "x=y", "Debug,Default", " ", "Deserialize", "serde::Serialize, serde::Deserialize", "Clone, serde::Deserialize", "::std::fmt::Debug, PartialEq", "some::very::long::qualified::path::to::a::derive::macro::that::goes::on::and::on::and::on::for::more::than::a::hundred::columns::Trait", "A, B, C, D, E, F, G, H, I, J, K, L, M, N, O, P, Q, R, S, T, U, V, W, X, Y, Z, A1, B1, C1, D1, E1, F1, G1, H1, I1, J1, K1, L1", "#[derive(Debug, Clone)]", "#[derive)(", ")(", "Debug,\r\nClone", "Debug,\nClone", "Debug\r", "\tDebug"]).to_string();
+        let d = rng.pick(&["Debug", "", "Serialize, Deserialize", "Debug, Clone", "Привет", "A B", "x=y", "Debug,Default", " ", "Deserialize", "serde::Serialize, serde::Deserialize", "Clone, serde::Deserialize", "::std::fmt::Debug, PartialEq", "some::very::long::qualified::path::to::a::derive::macro::that::goes::on::and::on::and::on::for::more::than::a::hundred::columns::Trait", "A, B, C, D, E, F, G, H, I, J, K, L, M, N, O, P, Q, R, S, T, U, V, W, X, Y, Z, A1, B1, C1, D1, E1, F1, G1, H1, I1, J1, K1, L1", "#[derive(Debug, Clone)]", "#[derive)(", ")(", "Debug,\r\nClone", "Debug,\nClone", "Debug\r", "\tDebug", "PartialOrd", "Debug, PartialEq, Eq, PartialOrd, Ord", "std::cmp::Ord", "Hash", "Default", "Copy, Clone"]).to_string();
         opts.push(match rng.below(4) {
             0 => vec!["--derive".into(), d.clone()],
             1 => vec![format!("--derive={d}")],
